@@ -106,12 +106,16 @@ class World:
         self.f = []
         self.classes = set()
         self.nt = False
+        self.last_list = None   # (list object, adapter specs): the adapters list the caller passed last
 
     def mk_adapter(self, spec):
         H = self.K["H"]
         if spec["k"] == "prefix":
             return H.RequestAdapterAddPathPrefix(spec["p"])
         return self.K["TagAdapter"](spec["tag"], self.log)
+
+
+AUTH_KINDS = ("bauth", "client", "token")
 
 
 def has_auth(chain):
@@ -137,6 +141,14 @@ def build_layer(w, conn_data, layer):
         ads = layer.get("ad", [])
         objs = [w.mk_adapter(a) for a in ads]
         form = layer.get("form", "list")
+        if form == "same_list":
+            # the caller passes the very list object it passed for an earlier derivation
+            if w.last_list is None or any(a["k"] in AUTH_KINDS for a in w.last_list[1]):
+                form = "list"
+            else:
+                objs, ads = w.last_list
+                w.classes.add("adapters_list_object_reused")
+                return H.HttpConn(conn_data, adapters=objs), list(ads)
         if form == "none" or (form == "single" and len(objs) != 1):
             if not objs:
                 return H.HttpConn(conn_data), []
@@ -146,6 +158,7 @@ def build_layer(w, conn_data, layer):
         if form == "tuple":
             # own_adapters + parent list: a tuple cannot be concatenated with a list -> documented type is list
             return H.HttpConn(conn_data, adapters=list(objs)), list(ads)
+        w.last_list = (objs, list(ads))
         return H.HttpConn(conn_data, adapters=objs), list(ads)
     if t == "bauth":
         return H.BAuthConn(conn_data, layer["login"], layer["pw"]), [{"k": "bauth", "login": layer["login"], "pw": layer["pw"]}]
@@ -389,9 +402,17 @@ def run_history(case):
                 elif form == "tuple":
                     new = src["obj"].clone(list(objs))
                     form = "list"
+                elif form == "same_list" and w.last_list is not None and not any(
+                        a["k"] in AUTH_KINDS for a in w.last_list[1]):
+                    objs, ads = w.last_list
+                    ads = list(ads)
+                    w.classes.add("adapters_list_object_reused")
+                    new = src["obj"].clone(objs)
+                    form = "list"
                 else:
                     form = "list"
                     new = src["obj"].clone(objs)
+                    w.last_list = (objs, list(ads))
                 src["base"]["derived"] += 1
                 w.callers.append({"obj": new, "cls": src["cls"], "base": {
                     "root": src["base"]["root"], "chain": list(ads) + src["base"]["chain"],
@@ -459,9 +480,9 @@ def st_layer():
     cred = st.text("abcXYZ:é @", min_size=0, max_size=6)
     return st.one_of(
         st.builds(lambda ad, form: {"t": "http", "ad": ad, "form": form},
-                  st.lists(st_adapter(), max_size=2), st.sampled_from(["list", "tuple", "single", "none"])),
+                  st.lists(st_adapter(), max_size=2), st.sampled_from(["list", "tuple", "single", "none", "same_list"])),
         st.builds(lambda ad, form: {"t": "http", "ad": ad, "form": form},
-                  st.lists(st_adapter(), max_size=2), st.sampled_from(["list", "tuple", "single", "none"])),
+                  st.lists(st_adapter(), max_size=2), st.sampled_from(["list", "tuple", "single", "none", "same_list"])),
         st.builds(lambda a, b: {"t": "bauth", "login": a, "pw": b}, cred, cred),
         st.builds(lambda a, b, c: {"t": "client", "name": a, "id": b, "secret": c}, cred, cred, cred),
         st.builds(lambda a: {"t": "token", "token": a}, st.text("abc.-_XYZ09", min_size=1, max_size=10)))
@@ -494,7 +515,7 @@ def st_ops():
         st.tuples(st.just("wrap"), idx, st_layer()),
         st.tuples(st.just("add_adapter"), idx, st_adapter()),
         st.tuples(st.just("caller"), idx, st.integers(0, 1), st.sampled_from(["by_conn", "by_conn", "by_address"])),
-        st.tuples(st.just("clone"), idx, st.lists(st_adapter(), max_size=2), st.sampled_from(["none", "single", "list", "tuple"])),
+        st.tuples(st.just("clone"), idx, st.lists(st_adapter(), max_size=2), st.sampled_from(["none", "single", "list", "tuple", "same_list"])),
         st.tuples(st.just("req"), idx, st_reqargs()),
         st.tuples(st.just("req"), idx, st_reqargs()),
         st.tuples(st.just("req"), idx, st_reqargs()),
